@@ -12,14 +12,14 @@ import nn_ref_c17 as ref
 
 ID = 'C17'
 LEVEL = 'proof'
-RULE = ('witnesses of the 3 known findings; conv1d: full grid batch 1..2, C 1..4 x every divisor as groups x O in {g,2g}, '
+RULE = ('witnesses of the repaired findings conv.groups-interleaved, conv.unbatched-groups and batch_norm.rank-not-4 as regression requests; conv1d: full grid batch 1..2, C 1..4 x every divisor as groups x O in {g,2g}, '
         'L 1..5 (quick) / 1..7, K 1..3, stride 1..3, padding 0..2, dilation 1..2, positive output size, bias on/off, defaults passed as None '
         'or as the explicit value, a third of the points again with one-element index arrays as stride / padding / dilation (forms aaa, aia, iai, nan, ana), float32 and int element types, plus seeded cases beyond the grid (batch<=3, C<=6, L<=12, K<=5, s<=4, p<=3, d<=3) and on unbatched inputs (C, L) / (C, H, W) (off-domain: the reference is PyTorch\'s batch of one, squeezed); '
         'conv2d: seeded sample (700 quick / 15000 thorough) of the same ranges, batch 1..2, with None / int / pair argument forms; pooling: every (H,W) 1..5 '
         '(quick, interior thinned 1:3) / 1..7, kernel 1..3, stride 1..3 per axis, ceil on/off, 0..2 leading axes: shape_pool2d, slice_pool2d, window '
         'provenance fold through view::pool2d, max_pool2d, avg_pool2d (data -9..9, so all-negative windows occur; MODEL = fold over the window, exact for max, float32 for avg); '
         'softmax/softmin over every axis (negative too) of rank 1..4; '
-        'batch/layer/instance/group norm on rank 2..4 (every trailing normalized_shape, every divisor as num_groups); linear, bilinear (rank 1..3, and rank 4 with a middle '
+        'batch/layer/instance/group norm on rank 2..4 (every trailing normalized_shape, every divisor as num_groups; batch_norm also on rank 5, and every batch_norm request twice: input rank known at run time and at compile time); linear, bilinear (rank 1..3, and rank 4 with a middle '
         'leading extent of 1 and of 2..3), pairwise_distance (default and ord/eps/keepdims forms, broadcast, equal operands), cosine_similarity (every axis, zero vectors) on rank 1..3: '
         'all of these are evaluated by the Lean MODEL too (the polymorphic compositions of NN/Compose.lean at Float32, at Int for integer linear / bilinear / max pooling) and compared with IMPL and with the oracle. '
         'integer-valued data compared exactly, float results within 4 ulp(float32) x terms x magnitude. non-trivial = parameters not all default')
@@ -42,7 +42,7 @@ ANCHORS = {'NmVerif.NN.convnd (convWeight, convInput, convCore, convBias, convSt
                'view::pairwise_distance, view::cosine_similarity, view::vector_norm, view::broadcast_arrays (view/pairwise_distance.hpp, cosine_similarity.hpp, vector_norm.hpp)',
            'NmVerif.NN.batchNorm / layerNorm / instanceNorm / groupNorm (normCore over Reduce.mean, Reduce.var; chanParam = atleastNd + moveLast; groupNormReshape / groupNormAxis / groupNormArgsReshape)':
                'view::batch_norm, layer_norm (index::layer_norm_axis), instance_norm, group_norm (index::group_norm_reshape, group_norm_axis, group_norm_args_reshape), view::mean, view::var, atleast_nd, moveaxis'}
-ASSUMPTIONS = ['the tree under test carries the fix commits of fixes/C17-conv-batch, C17-conv2d-dilation-pair, C17-pool-ceil-window, C17-max-pool-initial (the model mirrors the repaired code, incl. C17-bilinear-lead-axes; the group interleaving of conv_reshape_weight is mirrored as it is)',
+ASSUMPTIONS = ['the tree under test carries the fix commits of fixes/C17-conv-batch, C17-conv2d-dilation-pair, C17-pool-ceil-window, C17-max-pool-initial, C17-bilinear-lead-axes, C17-conv-groups-interleaved, C17-batch-norm-rank (the model mirrors the repaired code)',
                'shape_pool2d and the strided slice compute extents in float32 (ceil/floor of a float quotient): exact only while the quotient is representable (extents < 2^24); the model uses naturals',
                'k <= n for pooling (the C++ wraps in size_t otherwise; the reference rejects it)',
                'floating-point tolerance (4 ulp x terms) is a harness statement, not a Lean statement: the theorems about softmax, the norms, linear, pairwise_distance, cosine_similarity and avg pooling are over an abstract element type with opaque element operations and say which elements are combined in which order; the driver instantiates them at Float32 (IEEE single, libm expf/powf) for the correspondence run',
@@ -51,16 +51,15 @@ ASSUMPTIONS = ['the tree under test carries the fix commits of fixes/C17-conv-ba
                'PyTorch itself is not available: the reference is lib/nn_ref_c17.py written from the documented formulas']
 PARTIAL = ['bilinear: the nested-loop definition is proved for rank-1, rank-2 and rank-3 inputs (bilinear_rank1_eq_def, bilinear_rank2_eq_def, bilinear_rank3_eq_def); for rank >= 4 (repaired defect bilinear.lead-axes, instance bilinear_rank4_regression) the composition is modelled and compared with the real code and the oracle on every run but has no Lean theorem for all extents (missing: the matmulv2 term structure for the reshaped (B0, .., Bk, 1, Bk+1, I) x (O, I, J) operands with a lead of arbitrary length carried through multiply / sum / transpose)',
            'softmax / softmin / cosine_similarity are proved in the form the code computes (stabilised exponent, quotient summed term by term); equality with the textbook formula is proved under explicit algebraic laws of the element operations (softmax_eq_textbook, cosine_similarity_eq_textbook), which floating point satisfies only approximately',
-           'batch_norm: theorem for rank-4 inputs (where the code agrees with PyTorch); other ranks are the known finding batch_norm.rank-not-4 (batch_norm_rank2_counterexample)',
-           'conv1d theorems cover None | int | one-element index array forms (conv1d_forms_eq_code_loop, conv1d_forms_eq_nested_loop); conv2d theorems cover None | int | pair forms; the correspondence run serves 5 of the 19 conv1d combinations that contain an array (aaa, aia, iai, nan, ana) besides the 8 without',
-           'conv*_eq_nested_loop (PyTorch group assignment) hold on groups = 1 or O = groups (outside: conv1d_groups_counterexample, conv2d_groups_counterexample); conv*_eq_code_loop hold for every groups with the code\'s assignment o % g']
+           'conv1d theorems cover None | int | one-element index array forms (conv1d_forms_eq_code_loop, conv1d_forms_eq_nested_loop); conv2d theorems cover None | int | pair forms; the correspondence run serves 5 of the 19 conv1d combinations that contain an array (aaa, aia, iai, nan, ana) besides the 8 without']
 MANIFEST = dict(
-    text='Proof: 35 Lean theorems. conv1d and conv2d: the mirrored view::convnd pipeline (reshape by groups, pad, sliding_window of input and of the dilation-expanded weight, multiply, sum, reshape, bias, strided slice) is defined, has the extent floor((n+2p-d(k-1)-1)/s)+1 per plane and each element is the nested loop over (channel, kernel) terms, for every batch, extent, kernel, stride, padding, dilation, groups and optional bias (None / int forms, and pairs for conv2d) with the code\'s group assignment o % g; equal to the PyTorch loop for groups = 1 or one output channel per group, with kernel-checked counterexamples outside. Pooling: shape_pool2d = PyTorch extents in floor and ceil mode (with the last-window rule), every window is non-empty, inside the input and equal to the clipped reference window, for any number of leading axes; max_pool2d = left fold of max over exactly that window from its first element (the greatest element over the integers), avg_pool2d = window sum / number of window elements, the divisor PyTorch uses without padding. Over an abstract element type with opaque operations, for all ranks, extents and axes: softmax / softmin (which elements enter the maximum and the normalising sum: the line through the index along the axis), linear (sum_i x[p,i] w[o,i] + b[o]), pairwise_distance, cosine_similarity, layer / instance / group norm (mean and variance over exactly the trailing block / spatial block / consecutive-channel group), batch_norm on rank 4 and bilinear on rank-1, rank-2 and rank-3 inputs. Tied to the headers by a differential run of every routine (model + nested-loop oracle) on every check.',
-    note='Lean kernel + propext/Classical.choice/Quot.sound; model hand-written, fidelity rests on the correspondence run; theorems about softmax / norms / linear / distances are about term selection and fold order over abstract operations (float tolerance 4 ulp x terms is the harness\'s); five defects found by this check were repaired in /repo (fixes/C17-*.diff); two known findings remain (conv group interleaving for O/groups > 1, batch_norm on rank 2/3 inputs).',
+    text='Proof: 37 Lean theorems. conv1d and conv2d: the mirrored view::convnd pipeline (reshape by groups, pad, sliding_window of input and of the dilation-expanded weight, multiply, sum, reshape, bias, strided slice) is defined, has the extent floor((n+2p-d(k-1)-1)/s)+1 per plane and each element is the nested loop over (channel, kernel) terms, for every batch, extent, kernel, stride, padding, dilation, groups and optional bias (None / int / one-element array forms, and pairs for conv2d), with PyTorch\'s group assignment o / (O/groups) for every groups (the weight is laid out (groups, O/groups, ...)). Pooling: shape_pool2d = PyTorch extents in floor and ceil mode (with the last-window rule), every window is non-empty, inside the input and equal to the clipped reference window, for any number of leading axes; max_pool2d = left fold of max over exactly that window from its first element (the greatest element over the integers), avg_pool2d = window sum / number of window elements, the divisor PyTorch uses without padding. Over an abstract element type with opaque operations, for all ranks, extents and axes: softmax / softmin (which elements enter the maximum and the normalising sum: the line through the index along the axis), linear (sum_i x[p,i] w[o,i] + b[o]), pairwise_distance, cosine_similarity, layer / instance / group norm (mean and variance over exactly the trailing block / spatial block / consecutive-channel group), batch_norm on every rank >= 2 (parameters of the element\'s channel, axis 1) and bilinear on rank-1, rank-2 and rank-3 inputs. Tied to the headers by a differential run of every routine (model + nested-loop oracle) on every check.',
+    note='Lean kernel + propext/Classical.choice/Quot.sound; model hand-written, fidelity rests on the correspondence run; theorems about softmax / norms / linear / distances are about term selection and fold order over abstract operations (float tolerance 4 ulp x terms is the harness\'s); seven defects found by this check were repaired in /repo (fixes/C17-*.diff), the last two being the conv group interleaving for O/groups > 1 and batch_norm on rank 2/3 inputs; no known finding remains.',
     technique='Lean 4 proofs over the mirrored convnd / pool2d index pipeline and over compositions of the C06-C08 / C16 models (Mathlib ring tactic in lemma files only) + differential correspondence (IMPL vs Lean MODEL at Float32 / Int vs independent nested-loop NumPy oracle)')
 
 H_C1, H_C2A, H_C2B, H_POOL, H_NORM, H_LIN = 'h_c17_conv1d', 'h_c17_conv2d_nb', 'h_c17_conv2d_b', 'h_c17_pool', 'h_c17_norm', 'h_c17_lin'
 H_C1A = 'h_c17_conv1d_arr'     # conv1d with one-element index arrays as stride / padding / dilation
+H_NORMFD = 'h_c17_normfd'     # batch_norm on inputs of compile-time rank (the `if constexpr` branch of view::batch_norm)
 
 
 def harness_specs(tier):
@@ -70,6 +69,7 @@ def harness_specs(tier):
             dict(name=H_C2B, src='h_c17_conv2d.cpp', flavour='fast', extra=('-DC17_BIAS=1',)),
             dict(name=H_POOL, src='h_c17_pool.cpp', flavour='fast'),
             dict(name=H_NORM, src='h_c17_norm.cpp', flavour='fast'),
+            dict(name=H_NORMFD, src='h_c17_normfd.cpp', flavour='fast'),
             dict(name=H_LIN, src='h_c17_lin.cpp', flavour='fast')]
 
 
@@ -263,8 +263,12 @@ def conv_case(rng, nsp, N, C, g, O, sp, ks, s, p, d, bias, forms, dt='f', model=
     else:
         h = H_C2B if bias else H_C2A
     c = Case(req, h, oracle=oracle, model=model, nontrivial=nontriv, tags=tags)
-    # on-domain = hypotheses of conv1d_eq_nested_loop / conv2d_eq_nested_loop: a batched input, groups = 1 or one output channel per group
-    c.dom = not k_conv_groups(c) and not unbatched
+    # on-domain = hypotheses of conv1d_eq_nested_loop / conv2d_eq_nested_loop: a batched input, every groups
+    c.dom = not unbatched
+    if k_conv_groups(c):
+        c.tags = tuple(c.tags) + ('conv.groups-interleaved-regression',)      # class of the repaired defect: in-domain now
+    if k_conv_unbatched_groups(c):
+        c.tags = tuple(c.tags) + ('conv.unbatched-groups-regression',)
     return c
 
 
@@ -318,10 +322,9 @@ def gen_conv1d(tier, rng):
                                             yield c
     # unbatched inputs (C, L): outside the property's quantifier (batch 1..2) and outside the theorems, PyTorch accepts them;
     # the code reshapes the sum by conv_reshape_reduce in a branch of its own
-    # (groups = 1 only: with groups > 1 the unchanged code gives the shape (O/g, g*L_out), recorded in known/C17.json as
-    # conv.unbatched-groups, status outside-quantifier; fixes/C17-conv-groups-interleaved repairs it on the way)
+    # (every groups: conv.unbatched-groups was repaired together with conv.groups-interleaved)
     for t in range(120 if tier == 'quick' else 1500):
-        C = rng.randint(1, 4); g = 1; O = g * rng.randint(1, 3)
+        C = rng.randint(1, 4); g = rng.choice(divisors(C)); O = g * rng.randint(1, 3)
         L = rng.randint(1, 6); K = rng.randint(1, 3); s_ = rng.randint(1, 3); p_ = rng.randint(0, 2); d_ = rng.randint(1, 2)
         if ref.conv_out_size(L, K, s_, p_, d_) <= 0:
             continue
@@ -377,7 +380,7 @@ def gen_conv2d(tier, rng):
         if c is not None:
             made += 1
             yield c
-            if made % 8 == 0 and g == 1:
+            if made % 8 == 0:
                 # the same point on an unbatched input (C, H, W)
                 c = conv_case(rng, 2, None, C, g, O, [H, W], [kh, kw], s, p, d, bias, forms)
                 if c is not None:
@@ -508,9 +511,21 @@ def gen_norms(tier, rng):
             # batch_norm
             m = reals8(rng, C, -8, 8); v = [abs(t) + 0.125 for t in reals8(rng, C, 0, 16)]; w = reals8(rng, C, -8, 8); b = reals8(rng, C, -8, 8)
             out = ref.batch_norm(xa, m, v, w, b)
-            yield Case('batch_norm xs=%s x=%s ms=%d m=%s vs=%d v=%s ws=%d w=%s bs=%d b=%s' % (fmt(shape), fdata(x), C, fdata(m), C, fdata(v), C, fdata(w), C, fdata(b)),
-                       H_NORM, oracle=fres(out), tags=['batch_norm', 'rank=%d' % rank], dom=(rank == 4),
-                       cmp=close_cmp(8, (max(abs(t) for t in x) + 1) / math.sqrt(0.125) * 1 + 1))
+            bnreq = 'batch_norm xs=%s x=%s ms=%d m=%s vs=%d v=%s ws=%d w=%s bs=%d b=%s' % (fmt(shape), fdata(x), C, fdata(m), C, fdata(v), C, fdata(w), C, fdata(b))
+            bntags = ['batch_norm', 'rank=%d' % rank] + (['batch_norm.rank-not-4-regression'] if rank != 4 else [])
+            bncmp = close_cmp(8, (max(abs(t) for t in x) + 1) / math.sqrt(0.125) * 1 + 1)
+            yield Case(bnreq, H_NORM, oracle=fres(out), tags=bntags + ['rank:run-time'], cmp=bncmp)
+            # the same request on an input whose rank is a compile-time constant (other branch of the parameter placement)
+            yield Case(bnreq + ' kind=fixed_dim', H_NORMFD, oracle=fres(out), tags=bntags + ['rank:compile-time'], cmp=bncmp)
+            if rank == 4 and rep % 2 == 0:
+                # one more spatial axis: (N, C, D, H, W)
+                shape5 = shape[:2] + [rng.randint(1, 2)] + shape[2:]
+                x5 = reals8(rng, prod(shape5))
+                out5 = ref.batch_norm(np.array(x5).reshape(shape5), m, v, w, b)
+                req5 = 'batch_norm xs=%s x=%s ms=%d m=%s vs=%d v=%s ws=%d w=%s bs=%d b=%s' % (fmt(shape5), fdata(x5), C, fdata(m), C, fdata(v), C, fdata(w), C, fdata(b))
+                cmp5 = close_cmp(8, (max(abs(t) for t in x5) + 1) / math.sqrt(0.125) * 1 + 1)
+                yield Case(req5, H_NORM, oracle=fres(out5), tags=['batch_norm', 'rank=5', 'batch_norm.rank-not-4-regression', 'rank:run-time'], cmp=cmp5)
+                yield Case(req5 + ' kind=fixed_dim', H_NORMFD, oracle=fres(out5), tags=['batch_norm', 'rank=5', 'batch_norm.rank-not-4-regression', 'rank:compile-time'], cmp=cmp5)
             # layer_norm over the last k axes
             for k in range(1, rank + 1):
                 if rep % 2 == 1 and k not in (1, rank):
@@ -625,7 +640,10 @@ def oracle_for(req):
     try:
         if op in ('conv1d', 'conv2d'):
             b = None if a['b'] == 'None' else [int(t) for t in a['b'].split(',')]
-            return fres(ref.convnd(_arr(a, 'x', int), _arr(a, 'w', int), b, _opt(a['stride']), _opt(a['padding']), _opt(a['dilation']), int(a['groups'])))
+            xa, wa = _arr(a, 'x', int), _arr(a, 'w', int)
+            if xa.ndim == wa.ndim - 1:          # unbatched: PyTorch's batch of one, squeezed
+                return fres(ref.convnd(xa[None], wa, b, _opt(a['stride']), _opt(a['padding']), _opt(a['dilation']), int(a['groups']))[0])
+            return fres(ref.convnd(xa, wa, b, _opt(a['stride']), _opt(a['padding']), _opt(a['dilation']), int(a['groups'])))
         if op == 'pool_shape':
             return 'ok ' + fmt(ref.pool_windows(ints(a['shape']), ints(a['kernel']), ints(a['stride']), a['ceil'] == '1')[0])
         if op in ('max_pool2d', 'avg_pool2d'):
@@ -639,6 +657,23 @@ def oracle_for(req):
     except ref.RefError:
         return None
     return None
+
+
+REGRESSION = [
+    ('conv.groups-interleaved', 'conv1d dt=f xs=1,2,1 x=1,2 ws=4,1,1 w=1,1,1,1 b=None stride=None padding=None dilation=None groups=2'),
+    ('conv.groups-interleaved', 'conv1d dt=i xs=2,4,3 x=1,2,3,4,5,6,7,8,9,10,11,12,-1,-2,-3,-4,-5,-6,-7,-8,-9,-10,-11,-12 ws=6,2,2 '
+                                'w=1,0,0,1,2,0,0,2,3,0,0,3,1,1,0,0,0,0,1,1,1,-1,1,-1 b=1,2,3,4,5,6 bs=6 stride=2 padding=1 dilation=1 groups=2'),
+    ('conv.groups-interleaved', 'conv2d xs=1,2,1,1 x=1,2 ws=4,1,1,1 w=1,1,1,1 b=None stride=None padding=None dilation=None groups=2'),
+    ('conv.groups-interleaved', 'conv2d xs=1,4,2,2 x=1,2,3,4,5,6,7,8,9,10,11,12,13,14,15,16 ws=6,2,1,2 w=1,0,0,1,2,0,0,2,3,0,0,3,1,1,0,0,0,0,1,1,1,-1,1,-1 '
+                                'b=1,2,3,4,5,6 bs=6 stride=1,1 padding=0,1 dilation=1,2 groups=2'),
+    ('conv.unbatched-groups', 'conv1d dt=f xs=2,4 x=1,2,3,4,5,6,7,8 ws=4,1,2 w=1,2,3,4,5,6,7,8 b=None stride=None padding=None dilation=None groups=2'),
+    ('conv.unbatched-groups', 'conv2d xs=4,2,2 x=1,2,3,4,5,6,7,8,9,10,11,12,13,14,15,16 ws=6,2,1,2 w=1,0,0,1,2,0,0,2,3,0,0,3,1,1,0,0,0,0,1,1,1,-1,1,-1 '
+                              'b=1,2,3,4,5,6 bs=6 stride=1,1 padding=0,1 dilation=1,2 groups=2'),
+    ('batch_norm.rank-not-4', 'batch_norm xs=1,2 x=1,2 ms=2 m=0,0 vs=2 v=1,1 ws=2 w=1,1 bs=2 b=0,0'),
+    ('batch_norm.rank-not-4', 'batch_norm xs=2,3 x=1,2,3,4,5,6 ms=3 m=0,1,2 vs=3 v=1,4,0.25 ws=3 w=1,2,-1 bs=3 b=0,10,20'),
+    ('batch_norm.rank-not-4', 'batch_norm xs=2,2,3 x=1,2,3,4,5,6,7,8,9,10,11,12 ms=2 m=0,1 vs=2 v=1,4 ws=2 w=1,2 bs=2 b=0,10'),
+    ('batch_norm.rank-not-4', 'batch_norm xs=1,2,1,2,2 x=1,2,3,4,5,6,7,8 ms=2 m=0,1 vs=2 v=1,4 ws=2 w=1,2 bs=2 b=0,10'),
+]
 
 
 def gen_witnesses(tier, rng):
@@ -656,6 +691,14 @@ def gen_witnesses(tier, rng):
         cmpf = close_cmp(8, 8.0) if op in ('batch_norm', 'avg_pool2d') else None
         yield Case(req, h, oracle=o, dom=False, model=op in ('conv1d', 'conv2d', 'pool_shape'),
                    tags=['witness', 'witness:' + e['id']], cmp=cmpf)
+    # witnesses of repaired findings stay as regression requests (in-domain: MODEL, IMPL and ORACLE must agree)
+    for fid, req in REGRESSION:
+        op = req.split(' ')[0]
+        h = hmap.get(op) or (H_C2A if argstr(req)['b'] == 'None' else H_C2B)
+        cmpf = close_cmp(8, 8.0) if op == 'batch_norm' else None
+        yield Case(req, h, oracle=oracle_for(req), dom=(fid != 'conv.unbatched-groups'), model=True, tags=['regression', 'regression:' + fid], cmp=cmpf)
+        if op == 'batch_norm':
+            yield Case(req + ' kind=fixed_dim', H_NORMFD, oracle=oracle_for(req), dom=True, model=True, tags=['regression', 'regression:' + fid, 'rank:compile-time'], cmp=cmpf)
 
 
 def gen(tier, rng):
